@@ -514,6 +514,7 @@ def check(prop_id, tier="quick", base_seed=0, runs=None, jobs=None, out=print, w
         out("warning: probe %r stayed at 0" % p)
     total_handlers = None
     anchored = {}
+    unreached = []
     try:
         from .harness import handler_table
 
@@ -527,6 +528,8 @@ def check(prop_id, tier="quick", base_seed=0, runs=None, jobs=None, out=print, w
                 a[1] += 1
                 if name in hits:
                     a[0] += 1
+                else:
+                    unreached.append(name)
     except Exception:
         pass
     if write_evidence and evaluations:
@@ -554,7 +557,7 @@ def check(prop_id, tier="quick", base_seed=0, runs=None, jobs=None, out=print, w
                 "operation_kinds": dict(opkinds),
                 "probes": dict(probes),
                 "probes_at_zero": zero_probes,
-                "handler_reach": {"reached": len(hits), "total": total_handlers, "by_anchored_module": {k: "%d/%d" % tuple(v) for k, v in anchored.items()}},
+                "handler_reach": {"reached": len(hits), "total": total_handlers, "by_anchored_module": {k: "%d/%d" % tuple(v) for k, v in anchored.items()}, "not_reached_in_anchored_modules": sorted(unreached)},
                 "hash_seeds_used": dict(hashseeds_used),
                 "determinism_resamples": status_count.get("resampled", 0),
                 "corpus_entries": len(corpus),
